@@ -337,6 +337,34 @@ class Facts:
             return self.fns[tid]["path"]
         return m.get("rpath") or m.get("path")
 
+    def family(self, root):
+        """The function `root` (path or record) together with the non-public functions of its crate all of whose callers are
+        already in the family: the pieces a maintainer splits a long function into (`XmlElement::node` -> `push_attributes`,
+        `push_content`).  Rules anchored to `root` read the bodies of the whole family."""
+        f = self.fn(root) if isinstance(root, str) else root
+        if not hasattr(self, "_callers"):
+            self._callers = {}
+            for fid, es in self.edges().items():
+                for e in es:
+                    if e["to"] in self.fns and e["kind"] in ("call", "cha", "fwd", "mention", "store"):
+                        self._callers.setdefault(e["to"], set()).add(fid)
+        fam = {f["id"]}
+        changed = True
+        while changed:
+            changed = False
+            for gid, g in self.fns.items():
+                if gid in fam or g["crate"] != f["crate"] or "body" not in g or g["kind"] not in ("Fn", "AssocFn") or g.get("derived"):
+                    continue
+                if not str(g.get("vis", "")).startswith("Restricted") or " as " in g["path"]:
+                    continue
+                cs = {c for c in self._callers.get(gid, ()) if c != gid}
+                # closures of the function itself do not count as outside callers
+                cs = {c for c in cs if self.fns[c].get("parent") != g["path"]}
+                if cs and all(c in fam or self.fns[c].get("parent") in {self.fns[x]["path"] for x in fam} for c in cs):
+                    fam.add(gid)
+                    changed = True
+        return [self.fns[x] for x in sorted(fam, key=lambda i: (i != f["id"], self.fns[i]["path"]))]
+
     def reachable(self, roots, follow_dyn=True, stop=None):
         """Set of workspace fn ids reachable from roots (ids) along all edge kinds.
 
